@@ -31,6 +31,11 @@ func toByteSortable[T Invertable](v T) ([]byte, error) {
 		/* Floats are bit more tricky to convert to a sortable byte array but follow a similar principle:
 		 * https://stackoverflow.com/questions/54557158/byte-ordering-of-floats
 		 */
+		if v == 0 {
+			// -0.0 and +0.0 are equal, they must share a key (otherwise -0.0
+			// ends up below -Inf and decodes to NaN)
+			v = 0
+		}
 		bits := math.Float64bits(v)
 		if v >= 0 {
 			bits ^= 0x8000000000000000 // math.MinInt64
